@@ -118,9 +118,12 @@ var dict = []string{
 	"cols.Store",                // 74  registry update (Collection) / publication of the registry slice (columns)
 	"copy",                      // 75
 	"make",                      // 76
+	"compressor.Close",          // 77  the state compressor of Snapshot
+	"output.Close",              // 78  the compressor of a commit log
+	"closer.Close",              // 79  the file of a commit log
 }
 
-const dictVersion = 5
+const dictVersion = 6
 
 type fnSpec struct {
 	file string
@@ -162,6 +165,7 @@ var fns = []fnSpec{
 	{"txn.go", "Txn", "commitCapacity"},
 	{"collection.go", "columns", "Store"},
 	{"collection.go", "columns", "DeleteIndex"},
+	{"commit/log.go", "Log", "Close"},
 }
 
 type tok struct{ depth, kind, name int }
